@@ -129,8 +129,14 @@ Definition spec_outcomes (h : hook) (force : bool) : list outcome :=
      | Some l => if force then [] else [(unkeyed [l], [(0, q)])]
      | None => []
      end) ++ map (fun v => (unkeyed [fst v], [(0, snd v)])) (versions q)
-  | HPass q _ =>
-    match rev q with x :: _ => [(unkeyed [x], [(0, [])])] | [] => [] end
+  | HPass q _ last =>
+    match rev q with
+    | x :: _ => [(unkeyed [x], [(0, [])])]
+    | [] => match last with
+            | Some l => if force then [] else [(unkeyed [l], [(0, [])])]
+            | None => []
+            end
+    end
   | HKSingle m _ last =>
     map fst (filter (fun o => negb force || snd o || all_empty m) (ksingle_product last m))
   end.
